@@ -289,7 +289,11 @@ std::string render_xml(const Model& m, const XmlKnobs& k, Rng& rng)
             if (!l.name.empty()) {
                 x.nl();
                 x.open("name", {}, true, false);
-                x.os << l.name << "</name>";
+                // re-indented files put the name on its own line
+                if (k.pad_text && x.rng.chance(0.5))
+                    x.os << (x.rng.chance(0.5) ? "\n\t\t\t" : "  ") << l.name << (x.rng.chance(0.5) ? "\n\t\t" : " \t") << "</name>";
+                else
+                    x.os << l.name << "</name>";
             } else if (k.empty_elems && x.rng.chance(0.4)) {
                 x.nl();
                 const bool selfclose = x.rng.chance(0.5);  // <name x=".." y=".."/> or <name ..></name>
@@ -326,7 +330,8 @@ std::string render_xml(const Model& m, const XmlKnobs& k, Rng& rng)
             }
         }
         x.nl();
-        x.open("init", {{"ref", t.init_override.empty() ? t.locs[t.init].id : t.init_override}}, false, true);
+        if (!t.locs.empty() || !t.init_override.empty())
+            x.open("init", {{"ref", t.init_override.empty() ? t.locs[t.init].id : t.init_override}}, false, true);
         for (auto& e : t.edges) {
             x.nl();
             std::vector<std::pair<std::string, std::string>> at;
@@ -418,6 +423,10 @@ std::string render_xta(const Model& m)
     os << join_decls(m.gdecls) << "\n";
     for (auto& t : m.templs) {
         os << "process " << t.name << "(" << join_params(t.params) << ") {\n";
+        if (t.locs.empty()) {  // model fault empty-template
+            os << "}\n";
+            continue;
+        }
         os << join_decls(t.decls) << "\n";
         os << "state ";
         for (size_t i = 0; i < t.locs.size(); ++i) {
@@ -530,7 +539,7 @@ std::string expected_summary(const Model& m, bool)
                << " rate=" << tagstr(l.rate.tags) << "\n";
         for (auto& b : t.bps)
             os << "  bp " << b.docname() << "\n";
-        os << "  init " << t.locs[t.init].docname() << "\n";
+        os << "  init " << (t.locs.empty() ? std::string{"<none>"} : t.locs[t.init].docname()) << "\n";
         for (auto& e : t.edges) {
             os << "  edge " << (e.srcb ? t.bps[e.src].docname() : t.locs[e.src].docname()) << " -> "
                << (e.dstb ? t.bps[e.dst].docname() : t.locs[e.dst].docname()) << " ctrl=" << e.control << " select=";
@@ -542,7 +551,13 @@ std::string expected_summary(const Model& m, bool)
             os << " assign=" << tagstr(e.assign.tags) << " prob=" << tagstr(e.prob.tags) << "\n";
         }
     }
+    size_t sys_index = 0;
+    int prio = 0;
     for (auto& s : m.system) {
+        // each '<' in the system line starts a group of higher priority
+        if (sys_index > 0 && sys_index - 1 < m.prio_lt.size() && m.prio_lt[sys_index - 1])
+            ++prio;
+        ++sys_index;
         const MInst* in = nullptr;
         for (auto& i : m.insts)
             if (i.name == s)
@@ -554,7 +569,7 @@ std::string expected_summary(const Model& m, bool)
         if (!t)
             continue;
         if (!in) {
-            os << "process " << s << " of " << t->name << " unbound=" << t->params.size() << "\n";
+            os << "process " << s << " of " << t->name << " unbound=" << t->params.size() << " prio=" << prio << "\n";
             for (size_t i = 0; i < t->params.size(); ++i)
                 os << "  #" << i << " " << t->params[i].name << " = <unbound>\n";
             continue;
@@ -585,7 +600,7 @@ std::string expected_summary(const Model& m, bool)
             return r;
         };
         auto pl = plist(*in);
-        os << "process " << s << " of " << t->name << " unbound=" << in->free_params.size() << "\n";
+        os << "process " << s << " of " << t->name << " unbound=" << in->free_params.size() << " prio=" << prio << "\n";
         size_t k = 0;
         for (auto& e : pl)
             os << "  #" << k++ << " " << e.first << " = " << e.second << "\n";
